@@ -167,7 +167,7 @@ M("r4d-children-not-terminated", ["C12", "C02"], "break",
 M("r4d-children-alloc-too-small", ["C12", "C02"], "break",
   [("yaep.c", "* (sit_rule->trans_len + 1)));", "* (sit_rule->trans_len)));")], "make_parse/anode.children")
 M("r4d-copy-anode-short", ["C12", "C02"], "break",
-  [("yaep.c", "  for (i = 0; i <= rule->trans_len; i++)\n    node->val.anode.children[i] = anode->val.anode.children[i];", "  for (i = 0; i < rule->trans_len; i++)\n    node->val.anode.children[i] = anode->val.anode.children[i];")], "copy_anode/anode.children")
+  [("yaep.c", "  for (i = 0; i <= rule->trans_len; i++)\n    {\n      struct yaep_tree_node *child, **child_place;", "  for (i = 0; i < rule->trans_len; i++)\n    {\n      struct yaep_tree_node *child, **child_place;")], "copy_anode/anode.children")
 M("r4d-term-node-array-uninit", ["C12"], "break",
   [("yaep.c", "      for (i = 0; i < toks_len; i++)\n	term_node_array[i] = NULL;\n", "")], "make_parse/term_node_array")
 M("r4d-order-uninit", ["C12"], "break",
@@ -573,7 +573,7 @@ M("t3-recovery-off-continues", ["C06", "C01"], "break",
 M("t3-recovery-flag-inverted", ["C06", "C01"], "break",
   [("yaep.c", "	      if (grammar->error_recovery_p)\n	    {\n	      error_recovery (&start, &stop);", "	      if (!grammar->error_recovery_p)\n	    {\n	      error_recovery (&start, &stop);")], "recovery-switch")
 M("t1-term-attr-previous-token", ["C02", "C06", "C13"], "break",
-  [("yaep.c", "		      node->val.term.attr = toks[pl_ind].attr;", "		      node->val.term.attr = toks[tok_curr].attr;")], "term.attr")
+  [("yaep.c", "		  node->val.term.attr = toks[tok_num].attr;", "		  node->val.term.attr = toks[tok_curr].attr;")], "term.attr")
 M("t1-term-code-num", ["C02"], "break",
   [("yaep.c", "		      node->val.term.code = symb->u.term.code;", "		      node->val.term.code = symb->u.term.term_num;")], "term.code")
 M("t1-tok-attr-dropped", ["C02", "C06"], "break",
